@@ -22,6 +22,7 @@ struct JobState {
   std::uint64_t call_begin = 0, call_end = 0, drop_at = 0, destroyed_at = 0;
   int calls = 0, drops = 0;
   int run_fiber = -1, drop_fiber = -1, submit_fiber = -1;
+  int arg_cell = 0, result_cell = 0;  // plain cells: submit happens-before call, call happens-before Wait() return
 };
 
 struct TJob final : yaclib::Job {
@@ -102,6 +103,8 @@ class Case final : public sim::CaseBase {
   void SubmitJob(int idx) {
     auto& j = jobs[static_cast<std::size_t>(idx)];
     j.submit_fiber = sim::Fiber();
+    sim::RaceWrite(&j.arg_cell, sizeof j.arg_cell);
+    j.arg_cell = idx + 1;
     j.submit_invoke = sim::Seq();
     if (j.lambda) {
       yaclib::Submit(*pool, [n = Notifier{this, idx}]() noexcept {
@@ -128,6 +131,15 @@ class Case final : public sim::CaseBase {
       ++running;
       max_running = running > max_running ? running : max_running;
       start_order.push_back(idx);
+    }
+    {
+      auto& j = jobs[static_cast<std::size_t>(idx)];
+      sim::RaceRead(&j.arg_cell, sizeof j.arg_cell);
+      if (j.arg_cell != idx + 1) {
+        sim::Fail("STALE_PAYLOAD", "job %d does not see what its submitter wrote before Submit", idx);
+      }
+      sim::RaceWrite(&j.result_cell, sizeof j.result_cell);
+      j.result_cell = idx + 7;
     }
     const int points = jobs[static_cast<std::size_t>(idx)].body_points;
     for (int i = 0; i < points; ++i) {
@@ -220,6 +232,14 @@ class Case final : public sim::CaseBase {
     }
     tp.Wait();
     wait_returned = sim::Seq();
+    for (std::size_t i = 0; i < jobs.size(); ++i) {
+      if (jobs[i].calls == 1) {
+        sim::RaceRead(&jobs[i].result_cell, sizeof jobs[i].result_cell);
+        if (jobs[i].result_cell != static_cast<int>(i) + 7) {
+          sim::Fail("STALE_PAYLOAD", "after Wait() the result written by job %zu is not visible", i);
+        }
+      }
+    }
     if (running != 0) {
       sim::Fail("RAN_AFTER_WAIT", "%d jobs inside when Wait() returned", running);
     }
